@@ -40,7 +40,7 @@ func (d DCfg) String() string {
 var (
 	protoLists = [][]string{nil, {"chat"}, {"chat", "superchat"}, {"json", "mqtt", "chat.v2"}}
 	extLists   = [][]string{nil, {"permessage-deflate"}, {"permessage-deflate; client_max_window_bits; server_max_window_bits=10", "foo; a=1"}}
-	hdrKinds   = []string{"nil", "string", "bytes", "func", "http"}
+	hdrKinds   = []string{"nil", "string", "bytes", "func", "http", "http-hostile"}
 	bufSizes   = []int{0, 16, 64, 4096}
 	urls       = []string{"ws://example.com/", "ws://example.com", "ws://example.com:8080/chat", "ws://example.com/a/b?x=1&y=%20z", "ws://[::1]/v6", "ws://[2001:db8::1]:9000/v6?q=1",
 		"wss://example.com/", "wss://secure.example.com:8443/p?q", "wss://[::1]/", "wss://[::1]:9443/x", "ws://10.0.0.1:81/?only=query", "ws://host-with-dash.example/ws/",
@@ -75,6 +75,11 @@ func extraHeader(kind string) ws.HandshakeHeader {
 		return ws.HandshakeHeaderFunc(func(w io.Writer) (int64, error) { n, err := io.WriteString(w, text); return int64(n), err })
 	case "http":
 		return ws.HandshakeHeaderHTTP(http.Header{"X-Client": {"abc"}, "Cookie": {"k=v; k2=v2"}})
+	case "http-hostile":
+		// an http.Header filled from untrusted input: line breaks inside values, padding, a name that is
+		// not a field name. Whatever the adapter makes of them, the request stays ONE well-formed head.
+		return ws.HandshakeHeaderHTTP(http.Header{"X-Client": {"abc"}, "Cookie": {"k=v; k2=v2"},
+			"X-Multi": {"a\nb", "x\r\nX-Injected: yes"}, "X-Tail": {" padded \r\n"}, "Bad Key": {"v"}})
 	}
 	return nil
 }
@@ -191,7 +196,19 @@ func checkRequest(c *mon.C, cfg DCfg, u *url.URL, written []byte, det map[string
 		}
 		nExtra = 2
 	}
-	wantN := 4 + nExtra
+	slack := 0
+	if cfg.Header == "http-hostile" {
+		if len(req.Header.Values("X-Injected")) != 0 {
+			return fail("injected-header", "a line break inside a configured header value became a header of its own")
+		}
+		// (X-Multi and X-Tail may be sent sanitised or be left out)
+		for _, n := range []string{"X-Multi", "X-Tail"} {
+			if len(req.Header.Values(n)) > 0 {
+				slack++
+			}
+		}
+	}
+	wantN := 4 + nExtra + slack
 	if len(cfg.Protocols) > 0 {
 		wantN++
 	}
